@@ -14,6 +14,8 @@ def classify(events, i, why, case):
     ht = (case["sx"]["sigs"][0]["bytes"][-1]) if case["sx"].get("sigs") else 0
     base = {1: "ALL", 2: "NONE", 3: "SINGLE"}.get(ht & 0x1f, "?") + ("|ACP" if ht & 0x80 else "") + ("|FORKID" if ht & 0x40 else "")
     cls = why.get("cls")
+    if cls == "signframe":
+        return "signing-changes-tx:%s" % base, "signing inputs through FillInput (%s on the checked input) changed the transaction beyond unlocking scripts" % base
     if src == "commit-base":
         return "library-signature-rejected:%s" % base, "an input signed through FillInput/FillAllInputs with %s is not accepted by the interpreter (or not the specified digest)" % base
     mut = src.replace("commit-", "")
@@ -87,6 +89,10 @@ def run(ctx):
 
 def replay(ctx, case):
     c = case["case"]["case"]
+    if not c.get("sx", {}).get("frame", True):
+        # "signing changed the transaction" is an observation made while the scenario was generated (fresh keys):
+        # it is reproduced by generating scenarios again, not by re-running the recorded scripts
+        return run(ctx)
     events = V.run_cases(ctx, [c], three=False, tag="commit")
     rejects, st = V.validate(ctx, events, shards=1)
     handle(ctx, events, rejects, [c])
